@@ -440,8 +440,13 @@ def merge(agg, res):
         else:
             agg['extra'][k] = n
     agg['violations'].extend(res.get('violations', ()))
-    if len(agg['samples']) < 3:
-        agg['samples'].extend(res.get('samples', ())[:3 - len(agg['samples'])])
+    for smp in res.get('samples', ()):
+        # a few written-out cases, at most two of each kind of workload
+        kind = str(smp.get('kind') or smp.get('mode')) if isinstance(smp, dict) else '?'
+        n = sum(1 for k, _ in agg.setdefault('_sample_kinds', []) if k == kind)
+        if n < 2 and len(agg['samples']) < 8:
+            agg['_sample_kinds'].append((kind, 1))
+            agg['samples'].append(smp)
     agg['sim_s'] += res.get('sim_s', 0.0)
     agg['steps'] += res.get('steps', 0)
 
